@@ -215,6 +215,7 @@ func driveC20(o opts) error {
 			goFail("schema", "generated schema rejected: "+err.Error(), sj)
 			continue
 		}
+		rendered := map[int]map[string][]byte{}
 		for combo := 0; combo < 4; combo++ {
 			enumTypes, extended := combo&1 == 1, combo&2 == 2
 			if enumTypes && si == nschemas+len(fixed)-1 {
@@ -274,6 +275,47 @@ func driveC20(o opts) error {
 			}
 			pkgs = append(pkgs, pkg)
 			w.Count(fmt.Sprintf("generated:enums=%v,extended=%v", enumTypes, extended))
+			rendered[combo] = a
+		}
+		// the generator's own way of writing files (Generate, what cmd/modelgen calls): into one directory that already
+		// holds the files of another run - longer ones, shorter ones, the same ones. What is on disk afterwards is what
+		// Format gives, whatever was there before.
+		if si%4 == 0 || si >= nschemas {
+			gdir := filepath.Join(modDir, fmt.Sprintf("regen%d", si))
+			_ = os.MkdirAll(gdir, 0o755)
+			gnr, gerr := modelgen.NewGenerator()
+			for _, combo := range []int{3, 0, 0, 2, 1, 3} {
+				a := rendered[combo]
+				if a == nil || gerr != nil {
+					continue
+				}
+				enumTypes, extended := combo&1 == 1, combo&2 == 2
+				pkg := fmt.Sprintf("p%d_%d", si, combo)
+				bad := ""
+				for name := range schema.Tables {
+					table := schema.Tables[name]
+					args := modelgen.GetTableTemplateData(pkg, name, &table)
+					args.WithEnumTypes(enumTypes)
+					args.WithExtendedGen(extended)
+					file := filepath.Join(gdir, modelgen.FileName(name))
+					if err := gnr.Generate(file, modelgen.NewTableTemplate(), args); err != nil {
+						bad = fmt.Sprintf("Generate(%s) fails: %v", modelgen.FileName(name), err)
+						break
+					}
+					onDisk, _ := os.ReadFile(file)
+					if !bytes.Equal(onDisk, a[modelgen.FileName(name)]) {
+						bad = fmt.Sprintf("after Generate into a directory that holds the files of another run, %s (%d bytes) is not what the generator produces for this run (%d bytes)",
+							modelgen.FileName(name), len(onDisk), len(a[modelgen.FileName(name)]))
+						break
+					}
+				}
+				w.Count("regenerated into a used directory")
+				if bad != "" {
+					goFail("regenerate", fmt.Sprintf("%s (enum types %v, extended %v)", bad, enumTypes, extended), sj)
+					break
+				}
+			}
+			_ = os.RemoveAll(gdir)
 		}
 	}
 	if len(pkgs) > 0 {
